@@ -269,6 +269,12 @@ def gen_cases(ctx):
         return idx % ctx.nshards == ctx.shard
 
     views = ["items", "ports", "sport"]
+    if ctx.shard == 5:
+        # expressions without a protocol that denote the same port set through different operators, one after the other in one
+        # process (anything remembered per rendered text would confuse them: they all render nothing)
+        for text in ("gt 65535", "lt 1", "range 1 1", "lt 2", "eq 1", "range 65000 65535", "gt 64999", "lt 3", "range 1 2", "eq 1 2",
+                     "gt 65533", "range 65534 65535"):
+            yield {"k": "expr", "text": text, "proto": "", "platform": "ios", "port_nr": False, "history": ["ports", "sport", "items"]}
     # boundaries for every operator
     for op in ("lt", "gt"):
         pool = [1, 2, 3, 4, 5, 1023, 1024, 1025, 16383, 16384, 32767, 32768, 65533, 65534, 65535]
